@@ -399,6 +399,12 @@ def _ignore_grads(check: Check):
       okf = ret_none and 'non_trainable_names' in txt(n.ast.test.comparators[0])
   tail = flt.node.body[-1]
   okf = okf and isinstance(tail, ast.Return) and fff.param_of(tail.value) == flt.positional_params[2]
+  if not okf:
+    # single conditional expression:  return None if (m, n) in names else value   /   value if (m, n) not in names else None
+    for _, rv in fff.returns():
+      if isinstance(rv, ast.IfExp) and isinstance(rv.test, ast.Compare) and isinstance(rv.test.ops[0], ast.In) and 'non_trainable_names' in txt(
+          rv.test.comparators[0]):
+        okf = isinstance(rv.body, ast.Constant) and rv.body.value is None and fff.param_of(rv.orelse) == flt.positional_params[2]
   check.ob('R-IGNORE', flt, '(module, name) in names -> None else value', okf,
            'exactly the listed parameters are hidden from the base optimizer; everything else passes through unchanged')
   # purity
